@@ -108,7 +108,8 @@ func Run(prop, tier string) int {
 		c.R.RuleText = p.RuleText + " — " + ruleGlossary
 	}
 	c.R.Trusted = p.Trusted
-	c.R.Assumptions = p.Assumptions
+	c.R.Assumptions = append(append([]string{}, commonAssumptions...), p.Assumptions...)
+	c.R.RuleDefs = ruleDefs
 	func() {
 		defer func() {
 			if e := recover(); e != nil {
